@@ -23,8 +23,9 @@ not see the awaited flag; the accesses inside the wfcqueue that L2 abstracts).  
   to `wcWaitLd`: `tframe_cWake`);
 * `wframe` : labels of the application threads and of the memory system leave the worker's `wpc` and `cnt` unchanged; only
   `wake t` of a waker (sleeping worker → `waitLd`: `wframe_wake`), `fork` and `createWorker` touch the worker's pc.
-  (The lift lemma of the worker's automaton against `Wq.step` is NOT proved here: `WLPc.abs` only states the intended
-  correspondence of pcs; the properties of the automaton itself are `wstep_paused_quiescent`, `wstep_run`.)
+  (The lift lemmas of the worker's automaton against `Wq.step` – `wproj_lift`, `wproj_lift_run`, `wproj_run_begin`,
+  `wproj_run_end`, with the queue oracle discipline stated against `Wq.State` – are in `Src/WqWorkerLift.lean`; the
+  properties of the automaton itself are `wstep_paused_quiescent`, `wstep_run`.)
 -/
 set_option linter.unusedSimpArgs false
 set_option linter.unusedVariables false
